@@ -79,7 +79,7 @@ def _voice_events(p, vnotes, measure):
     return events, exp
 
 
-def encode(asc, same_part=False, split=None):
+def encode(asc, same_part=False, split=None, extra_voices=False):
     """-> (text, expected) ; expected = {"spines": [ {part, staff, notes:[(onset_q, dur_q, step, alter, octave, grace)], "measures":[q], "timesigs":[(q,b,t)], "key": fifths, "clef": (sign, line)} ]}
     Spines are written right-to-left as in Humdrum practice (lowest staff first)."""
     spines = []
@@ -92,6 +92,10 @@ def encode(asc, same_part=False, split=None):
             v = voices[0]
             notes = [n for n in p["notes"] if n["staff"] == st and n["voice"] == v]
             spines.append((pi, p, st, v, notes))
+            if extra_voices and same_part and len(voices) > 1 and not split:
+                # the second voice of the staff as a spine of its own (same *staff, same *part)
+                v2 = voices[1]
+                spines.append((pi, p, st, v2, [n for n in p["notes"] if n["staff"] == st and n["voice"] == v2]))
     if not spines:
         return None, None
     # rows: union of event onsets (in quarters) of all spines + barlines
@@ -163,7 +167,7 @@ def encode(asc, same_part=False, split=None):
         clef = next((c for c in p["clefs"] if c["staff"] == st and c["t"] == 0), None)
         ks = p["keysigs"][0] if p["keysigs"] else None
         cols.append({"pi": pi, "st": st, "events": events, "clef": clef, "ks": ks, "ts": [(gen.quarter_pos(p, t["t"]), t["beats"], t["beat_type"]) for t in p["timesigs"]]})
-        expected.append({"part": pi, "staff": st, "notes": exp_notes, "measures": [b for b, _ in bars], "timesigs": [(gen.quarter_pos(p, t["t"]), t["beats"], t["beat_type"]) for t in p["timesigs"]], "key": ks["fifths"] if ks else None, "clef": (clef["sign"], clef["line"]) if clef else None})
+        expected.append({"part": pi, "staff": st, "voice": v, "notes": exp_notes, "measures": [b for b, _ in bars], "timesigs": [(gen.quarter_pos(p, t["t"]), t["beats"], t["beat_type"]) for t in p["timesigs"]], "key": ks["fifths"] if ks else None, "clef": (clef["sign"], clef["line"]) if clef else None})
     # a spine split that carries real music: the second voice of one staff is written, for one measure, in a
     # sub-spine opened with *^ and merged with *v at the end of the measure
     pseudo = None
